@@ -297,7 +297,7 @@ def check(ctx):
     for comp in components(ctx):
         ctx.rules.append("%s: %s" % (comp.name, comp.rule))
         fails = vlib.check_component(ctx, comp)
-        if not ctx.proof_ok and not [f for f in fails if f["kind"] == "L1"]:
+        if ctx.enlarge() and not [f for f in fails if f["kind"] == "L1"]:
             fails += vlib.check_component(ctx, comp, budget_mult=10)     # broken proof: enlarge the search
         vlib.process_failures(ctx, comp, fails)
     return vlib.finish(ctx, "proof", MODULES + KAT_MODULES, "; ".join(explanation))
